@@ -253,6 +253,58 @@ CHECKS = {
          "and F7b (descriptor leak on PBF parse error).",
     technique="TLA+ spec + TLC (safety, deadlock, liveness under fairness); spec-to-code replay with fault injection; trace "
               "validation of recorded executions against the spec"),
+
+ "C08": dict(
+    category="model_checking",
+    text="specs/WriterPipeline.tla: user thread (operator()(Buffer), operator()(Item) with the internal buffer and flush-on-full, "
+         "flush, close, destructor; status okay/error/closed; notification flag polled in do_flush; ensure_cleanup), encoder tasks on "
+         "pool workers, write thread (pop in order, Compressor::write/close, promise := size | exception, flag, queue shutdown, "
+         "destructors) and the kernel as environment: the first write reaching unit offset o is cut short and fails, fsync fails, "
+         "the n-th close fails, encoder throws (pool / user thread), compressor throws. Three compressor models that differ where the "
+         "code differs (plain write-through; gzip: any prefix of the pending bytes reaches the kernel per gzwrite, rest + trailer in "
+         "gzclose_w, close(dup), fstat, fsync, close; bzip2: BZ2_bzWriteClose64, fsync, fclose, ~file_wrapper). A-layer = sequential "
+         "specification Walk(cfg,p) of the caller-visible log. TLC checks for every configuration, interleaving, queue bound and "
+         "buffering choice: log in Allowed(cfg); a returned size implies no fault, disk = Encode(objects handed in) and size = "
+         "Len(disk); a fault before close() returned is reported by an exception and only then; data refused after an exception; "
+         "future read at most once; no thread / descriptor left; no deadlock; termination under weak fairness; negative control "
+         "(as-shipped compressor model violates NoFdLeft). Binding: TLC exports (format x compression x fsync x fault x script) with "
+         "the allowed logs; harness/writer_fault.cpp runs the real Writer with the real XML/OPL/PBF encoders and plain/gzip/bzip2 "
+         "compressors while the kernel refuses (RLIMIT_FSIZE at byte offset o, /dev/full, fsync/close/fclose defined in the "
+         "executable), plus unencodable OPL strings, a mock OutputFormat and a mock compressor; per call result, returned size vs "
+         "stat, read-back with the Reader, threads/descriptors from /proc, watchdog for hangs; thorough: every byte offset of the "
+         "would-be output for 3 formats x 3 compressions x fsync. Recorded executions (queue hooks, WriteThread hooks, API "
+         "call/return) are validated by TLC against WriterPipelineTrace.tla.",
+    design_ref="DESIGN.md section 4, C08",
+    note="One fault per configuration. Byte offsets are instances of three offset classes of the spec (inside the output: allowed "
+         "logs of 'unit 0 fails', a superset for later offsets; tail only produced while closing: only close() may throw; >= size: "
+         "success), so *where* between first data and close() the exception surfaces is not pinned down by the replay (the trace "
+         "validation pins the poll in do_flush). For bzip2 the close fault is injected at fclose (glibc's internal close cannot be "
+         "interposed). PBF is modelled for less than one primitive block. Real schedules are perturbed, not enumerated. Errors after "
+         "a successful write (page cache) are only 'fsync fails'. In trace validation a kernel fault is represented by the "
+         "Compressor call observed to fail. Outcome-equivalent mutations (gzwrite / BZ2_bzWrite result ignored) are not detected.",
+    technique="TLA+ spec + TLC (safety, deadlock, liveness under fairness); spec-to-code replay with kernel-level fault injection; "
+              "trace validation of recorded executions against the spec"),
+ "C01": dict(
+    category="model_checking",
+    text="RoundTrip.tla: A-layer Project(options, object)/AOutcome/ProjectHeader; I-layer Writer transducer (PBF PrimitiveBlock: type, "
+         "count, size, can_add gate at 95 %, per-block string table, per-block dense delta registers, size check at serialization; "
+         "XML/XML-change/OPL attribute-presence rules) with the decoders mirroring it. TLC: decoder o encoder = Project, outcome = "
+         "AOutcome, blob limits (<= 8000 entities, <= 32 MiB), block shape, delta reset over the full 3264-point option matrix x 18 "
+         "element shapes, all shape pairs x 576 structural vectors, all type sequences to length 6, bulk sequences (7999/8000/8001 "
+         "runs, blocks filled to the gate, string-table-heavy blocks) to length 4; F7 configurations must fail. Replay: exported "
+         "(option vector, shape, projection, outcome, header features, block layout) instantiated with seeded boundary values, "
+         "written with osmium::io::Writer, read with osmium::io::Reader (1 and 4 pool threads), every field compared with Project; "
+         "independent PBF framing parser (tools/pbf_framing.py) checks every BlobHeader/Blob/PrimitiveBlock against the format "
+         "limits, header features and independently decoded ids.",
+    design_ref="DESIGN.md section 4, C01, section 6 F7",
+    note="Values are boundary tokens from a seeded pool, not the 64-bit/Unicode domain; codec fidelity is exercised, not enumerated. "
+         "Domain = what the readers accept (XML ids strictly inside int64, uint32 attributes < 2^32-1, delta-coded neighbours differ "
+         "by < 2^63). Named deviations modelled: PBF invisible nodes carry no location, OPL drops/refuses out-of-range locations, "
+         "PBF one joined header box / OPL no header, XML anonymous changeset user. Blob/file compression and thread count are passed "
+         "through by the model and assigned by the check (quick: one combination per structural point; thorough: full product x 5 "
+         "seeds). Block layout is compared as evidence only; the verdict uses limits, outcome and content. Open finding F7a (object "
+         "> 5 % of the blob limit after a nearly full block) is reported as KNOWN-FINDING.",
+    technique="TLA+ spec + TLC design check; TLC-exported behaviours replayed on the real Writer/Reader pair; independent format-limit parser"),
 }
 
 NOT_APPLICABLE = {
